@@ -305,42 +305,24 @@ func nilCondString(p *Prog, fn *ssa.Function) (string, bool) {
 	if idx < 0 {
 		return "", false
 	}
-	var nilRets []*ssa.Return
-	nonNil := 0
-	for _, ret := range returnsOf(fn) {
-		v := deref(ret.Results[idx])
-		if isNilConst(v) {
-			nilRets = append(nilRets, ret)
-			continue
-		}
-		c := &PathCtx{K: newKeyer(), assign: map[string]bool{}, phiSel: map[*ssa.Phi]ssa.Value{}, P: p}
-		if c.NilState(v) != -1 {
-			return "a return of unknown nilness: " + exprDepth(v, 0), false
-		}
-		nonNil++
-	}
-	if len(nilRets) != 1 || nonNil == 0 {
-		return fmt.Sprintf("%d nil returns, %d non-nil returns", len(nilRets), nonNil), false
-	}
+	// per path: is the returned error nil, and under which branch conditions
 	k := newKeyer()
 	k.paramPos = true
-	var conds []string
-	ret := nilRets[0]
-	for x := ret.Block(); x != nil; x = x.Idom() {
-		if len(x.Preds) != 1 {
-			continue
-		}
-		pp := x.Preds[0]
-		iff, ok := pp.Instrs[len(pp.Instrs)-1].(*ssa.If)
-		if !ok || pp.Succs[0] == pp.Succs[1] {
-			continue
-		}
-		key, pol := k.condKey(iff.Cond)
-		if pp.Succs[0] != x {
+	lit := func(pc PathCond) string {
+		key, pol := k.condKey(pc.Cond)
+		if !pc.Val {
 			pol = !pol
 		}
 		// readable: module/static callee names for calls
-		if c, ok := iff.Cond.(*ssa.Call); ok {
+		cond := pc.Cond
+		for {
+			if u, ok := cond.(*ssa.UnOp); ok && u.Op == token.NOT {
+				cond = u.X
+				continue
+			}
+			break
+		}
+		if c, ok := cond.(*ssa.Call); ok {
 			if sc := c.Call.StaticCallee(); sc != nil {
 				var as []string
 				for _, a := range c.Call.Args {
@@ -353,12 +335,42 @@ func nilCondString(p *Prog, fn *ssa.Function) (string, bool) {
 		if !pol {
 			key = "!" + key
 		}
-		conds = append(conds, key)
+		return key
+	}
+	nonNil := 0
+	unknown := ""
+	nilConj := map[string]bool{}
+	q := &PathQuery{P: p, Fn: fn, K: k}
+	q.AtReturn = func(ret *ssa.Return, st uint64, c *PathCtx) {
+		switch c.NilState(ret.Results[idx]) {
+		case -1:
+			nonNil++
+		case +1:
+			var cs []string
+			for _, pc := range c.PathConds() {
+				cs = append(cs, lit(pc))
+			}
+			sort.Strings(cs)
+			nilConj[strings.Join(cs, " && ")] = true
+		default:
+			unknown = exprDepth(c.Resolve(deref(ret.Results[idx])), 0)
+		}
+	}
+	q.Run()
+	if unknown != "" || q.Exhausted {
+		return "a return of unknown nilness: " + unknown, false
+	}
+	if len(nilConj) == 0 || nonNil == 0 {
+		return fmt.Sprintf("%d nil returns, %d non-nil returns", len(nilConj), nonNil), false
+	}
+	var conds []string
+	for cj := range nilConj {
+		conds = append(conds, cj)
 	}
 	sort.Strings(conds)
-	// the non-nil side must be the complement: with a single nil return whose dominating conditions are listed, every other return is non-nil (checked above)
-	return strings.Join(conds, " && "), true
+	return strings.Join(conds, " || "), true
 }
+
 
 var helperReference = map[string]string{
 	"CheckSize":        "(p:1 == p:2)",
